@@ -540,6 +540,23 @@ def P24():
     )
 
 
+def P25():
+    """A sensor with a tiny gain and a matching tiny noise (micro-units): S = H P H^T + Q is of order 1e-12 although
+    the normalised innovation is O(1)."""
+    x, v, a, dt = V("x"), V("v"), V("a"), V("dt")
+    return Program(
+        id="P25-micro",
+        state=["x", "v"],
+        control=["a"],
+        calibration=[],
+        update={"x": x + v * dt, "v": v + a * dt},
+        process_noise={"a": 0.25},
+        sensors={"micro": {"m": C(2.0 ** -20) * x}, "plain": {"q": v}},
+        sensor_noise={"micro": {"m": 2.0 ** -40}, "plain": {"q": 0.5}},
+        note="reading 2^-20 * x with noise variance 2^-40",
+    )
+
+
 def quick_programs():
     return [P1(), P3(), P8()]
 
@@ -550,7 +567,7 @@ def all_fixed():
 
 def catalogue():
     """Every fixed program, including the model-level-only ones (replay looks programs up by id here)."""
-    return all_fixed() + [P11(), P18(), P21(), P22(), P23(), P24()]
+    return all_fixed() + [P11(), P18(), P21(), P22(), P23(), P24(), P25()]
 
 
 def with_noise(p, process=None, sensor=None, pid=None):
